@@ -28,8 +28,27 @@ ASSUME = [
 ]
 
 
+def roaobj_sig(case, idx, verdict):
+    op = case["ops"][idx][0].split()
+    if verdict.startswith("FAIL oracle"):
+        return "oracle:" + ",".join(sorted(set(verdict.split()[2:]))) + ":roaobj-" + op[0]
+    return "model:roaobj-" + op[0]
+
+
+def roaobj(ctx):
+    """High-volume tie of Roas::create_updates / mode / create_renewal (thresholds drawn at and next to
+    the number of covered routes) through krill::verif::roa_objects."""
+    import vlib
+    n, length, procs = (30, 12, 6) if ctx.tier == "quick" else (1200, 25, 12)
+    traces = vlib.parallel_traces(ctx, "roaobj", n, length, procs=procs)
+    return vlib.judge_traces(ctx, "roaobj", "roaobj", traces, roaobj_sig)
+
+
 def check(ctx):
-    return objlib.run(ctx, QUICK, THOROUGH, RULE, ASSUME)
+    return objlib.run(ctx, QUICK, THOROUGH, RULE + "; stream roaobj: Roas::create_updates/mode/create_renewal/"
+                      "apply_updates called directly (krill::verif::roa_objects) on an evolving Roas value with "
+                      "route sets, claimed resources and both thresholds varied per op",
+                      ASSUME, extra_bins=["roaobj"], extra=roaobj)
 
 
 def replay(ctx, data):
